@@ -31,6 +31,7 @@ def API(br):
 
 
 class _Schema(Contract):
+    assigns = GUARD_STATE      # client programs enter and leave guarded regions; V.state_restored pins the final state
     modules = MODS
     probe = True
     cprops = ("C09",)
